@@ -161,6 +161,7 @@ def enclosing_theorem(relpath, line):
     return name
 
 
+_HIDDEN = re.compile(r"\bpartial\s+def\b|^\s*opaque\s|\bextern\b")
 _BANNED = re.compile(r"\bsorry\b|\badmit\b|^axiom\s|native_decide|bv_decide|implemented_by|\bunsafe\s|maxHeartbeats\s+0\b")
 
 
@@ -203,9 +204,12 @@ def audit_sources():
             src = strip_comments(open(p, encoding="utf-8").read())
             # string literals may mention the words; drop them
             src = re.sub(r'"(?:\\.|[^"\\])*"', '""', src)
+            rel = os.path.relpath(p, LEAN)
+            # `partial def` / `opaque` hide a definition from the kernel: allowed only in the I/O loop and wire decoding of the drivers (never a theorem subject)
+            io_only = rel in ("UnytModel/Driver.lean", "Main.lean") or rel.startswith("Drivers/") or rel.startswith("UnytModel/Ops/")
             for i, line in enumerate(src.split("\n"), 1):
-                if _BANNED.search(line):
-                    hits.append(f"{os.path.relpath(p, LEAN)}:{i}: {line.strip()[:100]}")
+                if _BANNED.search(line) or (not io_only and _HIDDEN.search(line)):
+                    hits.append(f"{rel}:{i}: {line.strip()[:100]}")
     return hits
 
 
